@@ -3,7 +3,15 @@
 seeded/REFACTOR2_RESULTS.json (round 2, held-out) and seeded/REFACTOR2_BASELINE.json."""
 import json, os, re
 def load(p): return json.load(open(p)) if os.path.exists(p) else {}
-R1=load('/verif/seeded/REFACTOR_RESULTS.json'); R2=load('/verif/seeded/REFACTOR2_RESULTS.json'); B2=load('/verif/seeded/REFACTOR2_BASELINE.json')
+ROUNDS=[(1,'r','REFACTOR_RESULTS.json',None,''),(2,'q','REFACTOR2_RESULTS.json','REFACTOR2_BASELINE.json',' (held-out)'),
+        (3,'s','REFACTOR3_RESULTS.json','REFACTOR3_BASELINE.json',' (held-out 2)'),(4,'u','REFACTOR4_RESULTS.json','REFACTOR4_BASELINE.json',' (held-out 3)')]
+RES={rd:load('/verif/seeded/'+f) for rd,_,f,_,_ in ROUNDS}
+BASE={rd:(load('/verif/seeded/'+b) if b else {}) for rd,_,_,b,_ in ROUNDS}
+def first_of(rd,n):
+    v=BASE[rd].get(n)
+    if v is None: return 'not recorded' if rd==1 else ''
+    if isinstance(v,str): return v
+    return 'alarm' if v.get('alarms') or 'error' in v else 'silent'
 def what(name):
     p=f'/verif/seeded/refactor/{name}/notes.md'
     if not os.path.exists(p): return ''
@@ -25,18 +33,24 @@ def alarms(v):
 rows=['| refactoring | what it does | round | first evaluation | final |','|---|---|---|---|---|']
 def key(n):
     a,b=n.rsplit('-',1); return (a, b[0], int(b[1:]))
-tot={1:[0,0],2:[0,0]}
-for n in sorted(list(R1)+list(R2), key=key):
-    v=R1.get(n) or R2.get(n)
-    rd=2 if n in R2 else 1
-    if 'error' in v:
-        rows.append(f'| {n} | {what(n)} | {rd} | | ({v["error"][:50]}) |'); continue
-    fin='silent' if not v.get('alarms') else '**alarm** — '+alarms(v)
-    first = B2.get(n,'') if rd==2 else 'not recorded'
-    rows.append(f'| {n} | {what(n)} | {rd}{" (held-out)" if rd==2 else ""} | {first} | {fin} |')
-    tot[rd][1]+=1; tot[rd][0]+= 0 if v.get('alarms') else 1
-b2s=sum(1 for v in B2.values() if v=='silent')
-txt='\n'.join(rows)+f'\n\nRound 1: {tot[1][0]} of {tot[1][1]} silent (final). Round 2 (held-out): {b2s} of {len(B2)} silent at first evaluation, {tot[2][0]} of {tot[2][1]} silent (final).\n'
+summ=[]
+label={rd:lab for rd,_,_,_,lab in ROUNDS}
+for rd,_,_,_,lab in ROUNDS:
+    fin_s=fin_n=0
+    for n in sorted(RES[rd], key=key):
+        v=RES[rd][n]
+        if 'error' in v:
+            rows.append(f'| {n} | {what(n)} | {rd} | | ({v["error"][:50]}) |'); continue
+        fin='silent' if not v.get('alarms') else '**alarm** — '+alarms(v)
+        rows.append(f'| {n} | {what(n)} | {rd}{lab} | {first_of(rd,n)} | {fin} |')
+        fin_n+=1; fin_s+= 0 if v.get('alarms') else 1
+    if not RES[rd]: continue
+    if BASE[rd]:
+        bs=sum(1 for n in BASE[rd] if first_of(rd,n)=='silent')
+        summ.append(f'Round {rd}{lab}: {bs} of {len(BASE[rd])} silent at first evaluation, {fin_s} of {fin_n} silent (final).')
+    else:
+        summ.append(f'Round {rd}: {fin_s} of {fin_n} silent (final).')
+txt='\n'.join(rows)+'\n\n'+' '.join(summ)+'\n'
 D=open('/verif/DESIGN.md').read()
 D=re.sub(r'<!-- REFAC-TABLE-BEGIN -->.*?<!-- REFAC-TABLE-END -->','<!-- REFAC-TABLE-BEGIN -->\n'+txt.replace('\\','\\\\')+'<!-- REFAC-TABLE-END -->',D,flags=re.S)
 open('/verif/DESIGN.md','w').write(D)
